@@ -75,6 +75,15 @@ func runCase(line string) string {
 			return id + " BADCASE"
 		}
 		return id + " " + runV(f[2], uint16(v), f[4])
+	case "VG":
+		if len(f) != 6 {
+			return id + " BADCASE"
+		}
+		v, err := strconv.ParseUint(f[3], 16, 16)
+		if err != nil {
+			return id + " BADCASE"
+		}
+		return id + " " + runVG(f[2], uint16(v), f[4], f[5])
 	case "VC":
 		if len(f) != 6 {
 			return id + " BADCASE"
